@@ -240,9 +240,12 @@ class Run:
         sim.reset(sandbox=sb, listdir_seed=self.cfg.get('listdir_seed'),
                   fault=fault, sched=sched,
                   log_io=self.opts.get('log_io', False))
-        versions = step.get('versions', {})
+        import copy as _copy
+        # the caller's own dictionary (user code may edit it later on)
+        versions = _copy.deepcopy(step.get('versions', {}))
         it = Interp(self.sc, sb, 'real', versions, crash_at=crash_at,
                     file_comparison=self.fb.FileComparison, sched=sched)
+        it.versions_obj = versions
         it.build_no = self.build_no
         it.crash_end = bool(fault and fault.get('crash_end'))
         it.stmt_hook = self.opts.get('stmt_hook')
@@ -830,7 +833,12 @@ class Run:
                             {'straggler': key, 'real': ro, 'model': mo})
         for inv in rit.done_order:
             robs, mobs = rit.trace[inv], mit.trace[inv]
-            if rit.entries.get(inv) != mit.entries.get(inv):
+            if rit.entries.get(inv) != mit.entries.get(inv) and not (
+                    self.cfg.get('spelled_race') and real.sched is not None
+                    and inv.startswith('s:')):
+                # (when threads race for one key spelled differently - 1 and
+                # 1.0 - the winner's spelling is what the function receives;
+                # the invocation id already is the JSON-canonical key)
                 raise V(['C07', 'C10', 'C11'], 'O-call', 'entry-args',
                         {'inv': inv, 'real': rit.entries.get(inv),
                          'model': mit.entries.get(inv)})
@@ -1262,8 +1270,16 @@ class Run:
         func = root
         is_clean = how.startswith('clean-')
         expect = None
+        # names that differ from the stored one in every way a loose
+        # comparison might miss (empty, case, trailing blank, prefix)
+        wrong_names = ['another build', '', name.lower() + name.upper(),
+                       name + ' ', name[:-1], name + '\x00', 'None']
+        wrong = wrong_names[(arg if isinstance(arg, int) else 0) %
+                            len(wrong_names)]
+        if wrong == name:
+            wrong = 'another build'
         if how == 'wrong-name':
-            name = 'another build'
+            name = wrong
             expect = 'RuntimeError'
         elif how == 'name-not-str':
             name = 7
@@ -1278,7 +1294,7 @@ class Run:
             versions = {'f': {1, 2}}
             expect = 'TypeError'
         elif how == 'clean-wrong-name':
-            name = 'another build'
+            name = wrong
             expect = 'RuntimeError'
         elif how == 'clean-name-not-str':
             name = 7
